@@ -1,7 +1,8 @@
 (* Spec/E5Reports.v — event report configuration per SEMI E5 (S2F33 Define Report, S2F35 Link Event Report,
    S2F37 Enable/Disable Event Report, S6F15 Event Report Request, S6F11 Event Report Send), written from the standard's
    message descriptions; no reference to the code.  Where E5 is silent (an id named twice inside one request, deleting
-   a report that does not exist, S6F15 for a disabled event, partial S2F37) several outcomes are admitted. *)
+   a report that does not exist, partial S2F37) several outcomes are admitted.  S6F15 asks for the report data itself:
+   it does not depend on the event being enabled (S2F37 controls what the equipment sends on its own). *)
 From SG Require Import Base.Prelude.
 Open Scope Z_scope.
 
@@ -101,7 +102,7 @@ Definition e5_step (env : renv) (c : rcfg) (o : rop) : list (rcfg * list rout) :
     else [(c, [RAck 1]); (apply, [RAck 1])]                                           (* refused; E5 does not say whether the known ones are switched *)
   | RRequest ce =>
     match event_report env c ce with
-    | Some rpt => if enabled c ce then [(c, [RReport ce rpt])] else [(c, [RReport ce rpt; RReport ce []])]
+    | Some rpt => [(c, [RReport ce rpt])]                                              (* the report data as linked, whether the event is enabled or not *)
     | None => []                                                                      (* a dangling link: nothing is admitted (integrity is violated) *)
     end
   | RTrigger ce =>
